@@ -282,6 +282,13 @@ def run_structural(case):
             else:
                 wa, wb = GroupedRecord("s/g", [a, c]), GroupedRecord("s/g", [fresh_copy(C), b])
             outs.append(laws(wa, wb, (), "wrapped:%s" % wrap, dict(case, variant=name, wrap=wrap), viol))
+            if name in ("copy", "other-value") and wrap in ("record", "record[]"):
+                # the inner records differ (at most) in n: with n ignored the pair is equal, inner and outer, and must hash alike
+                cm = set_ignore("ctx", ["n"])
+                try:
+                    outs.append(laws(wa, wb, ["n"], "wrapped:%s:inner-differs-in-ignored-field" % wrap, dict(case, variant=name, wrap=wrap, ignore=["n"]), viol))
+                finally:
+                    cm.__exit__(None, None, None)
             try:
                 if not (wa == wa) or wa != wa:
                     viol.append(("C12:wrapped:%s:not-reflexive" % wrap, dict(case, wrap=wrap), {}))
@@ -312,6 +319,7 @@ def run_scope(case):
     viol = []
     base.set_ignored_fields_for_comparison([])
     stack = []  # (cm, value at enter)
+    made = []
     states = []
     if set(base.IGNORE_FIELDS_FOR_COMPARISON):
         viol.append(("C12:scope:set:not-applied", case, {"step": -1, "got": sorted(base.IGNORE_FIELDS_FOR_COMPARISON), "want": []}))
@@ -321,6 +329,18 @@ def run_scope(case):
             if ev[0] == "set":
                 base.set_ignored_fields_for_comparison(form(SETS[ev[1]]))
                 want = set(SETS[ev[1]])
+            elif ev[0] == "make":
+                # the scope object is created now and entered later (scope = ignore_fields_for_comparison(...); ...; with scope:)
+                made.append((base.ignore_fields_for_comparison(form(SETS[ev[1]])), ev[1]))
+                want = set(base.IGNORE_FIELDS_FOR_COMPARISON)
+            elif ev[0] == "enter-made":
+                if not made:
+                    continue
+                cm, which = made.pop()
+                before = set(base.IGNORE_FIELDS_FOR_COMPARISON)
+                cm.__enter__()
+                stack.append((cm, before))
+                want = set(SETS[which])
             elif ev[0] == "enter":
                 before = set(base.IGNORE_FIELDS_FOR_COMPARISON)
                 cm = base.ignore_fields_for_comparison(form(SETS[ev[1]]))
@@ -421,7 +441,13 @@ def cases(tier, seed):
         vals = [v for v in alphabet(t, seed) if small(v)]
         if not thorough:
             vals = vals[:14]
+        if t == "datetime":
+            # one instant under four offsets (equal values) next to a different instant with the same wall clock
+            vals = vals + ["dt(2020,1,1,12,0,0,tz=UTC)", "dt(2020,1,1,14,0,0,tz=off(2))", "dt(2020,1,1,7,0,0,tz=off(5,neg=True))", "dt(2020,1,1,13,0,0,tz=Z('Europe/Amsterdam'))",
+                           "dt(2020,1,1,12,0,0,tz=off(2))", "dt(2020,1,1,12,0,0)"]
         yield {"kind": "type", "t": t, "values": vals}
+    yield {"kind": "type", "t": "datetime[]", "values": ["[dt(2020,1,1,12,0,0,tz=UTC)]", "[dt(2020,1,1,14,0,0,tz=off(2))]", "[dt(2020,1,1,12,0,0,tz=off(2))]", "[]",
+                                                        "[dt(2020,1,1,12,0,0,tz=UTC), dt(2020,1,1,14,0,0,tz=off(2))]", "[dt(2020,1,1,14,0,0,tz=off(2)), dt(2020,1,1,12,0,0,tz=UTC)]"]}
     for t in LISTABLE:
         el = [v for v in alphabet(t, seed, with_none=False) if small(v)][:4]
         vals = ["None", "[]"] + ["[%s]" % e for e in el] + ["[%s, %s]" % (a, b) for a, b in itertools.product(el[:3], repeat=2)]
@@ -431,6 +457,11 @@ def cases(tier, seed):
             yield {"kind": "struct", "t": t, "v": v}
     for hist in scope_histories(6 if thorough else 5):
         yield {"kind": "scope", "events": hist}
+    for i, j, k in itertools.product(range(len(SETS)), repeat=3):
+        for closing in ("exit", "exit-exc"):
+            yield {"kind": "scope", "events": [["set", i], ["make", j], ["set", k], ["enter-made"], [closing]]}
+            yield {"kind": "scope", "events": [["make", j], ["set", k], ["enter-made"], ["set", i], [closing]]}
+            yield {"kind": "scope", "events": [["make", j], ["enter", i], ["set", k], ["enter-made"], [closing], ["exit"]]}
     for form in FORMS:
         if form != "list":
             for hist in scope_histories(3):
